@@ -76,6 +76,7 @@ func runChunk(c *Ctx, spaces []Space, si int, lo, hi uint64) (res chunkResult) {
 	c.Notes = map[string]uint64{}
 	c.Info = map[string]string{}
 	c.Viols = nil
+	c.ClassCounts = nil
 	sp := spaces[si]
 	c.space = sp.Name
 	res.Space, res.Lo, res.Hi = si, lo, hi
@@ -102,6 +103,7 @@ func runChunk(c *Ctx, spaces []Space, si int, lo, hi uint64) (res chunkResult) {
 	}()
 	res.Evals, res.Nontrivial, res.Transitions, res.States = c.Evals, c.Nontrivial, c.Transitions, c.States
 	res.Outcomes, res.Notes, res.Info, res.Viols, res.ViolCount = c.Outcomes, c.Notes, c.Info, c.Viols, c.ViolCount
+	res.ClassCounts = c.ClassCounts
 	return res
 }
 
@@ -232,6 +234,7 @@ type Result struct {
 	Info                                   map[string]string
 	Viols                                  []Violation
 	ViolCount                              uint64
+	ClassCounts                            map[string]uint64
 	PerSpace                               []map[string]interface{}
 	Exhaustive                             bool
 	Caps                                   []string
@@ -337,6 +340,12 @@ func RunCheck(id, tier string, seed int64) int {
 			res.Info[k] = v
 		}
 		res.Viols = append(res.Viols, r.Viols...)
+		for k, v := range r.ClassCounts {
+			if res.ClassCounts == nil {
+				res.ClassCounts = map[string]uint64{}
+			}
+			res.ClassCounts[k] += v
+		}
 		ps := &perSpace[r.Space]
 		ps.evals += r.Evals
 		ps.nontrivial += r.Nontrivial
@@ -550,6 +559,16 @@ func RunCheck(id, tier string, seed int64) int {
 	}
 	if newViol > 0 {
 		exit = 1
+	}
+	if len(res.ClassCounts) > 0 && os.Getenv("VERIF_CLASSES") != "" {
+		var ks []string
+		for k := range res.ClassCounts {
+			ks = append(ks, k)
+		}
+		sort.Strings(ks)
+		for _, k := range ks {
+			fmt.Printf("  class-count %8d %s\n", res.ClassCounts[k], k)
+		}
 	}
 
 	// evidence
